@@ -1398,6 +1398,8 @@ func main() {
 			decisionFunc("driver/network/acquirepriv.go", "Driver.AcquirePriv"))
 		fmt.Fprintf(&sw, "(* driver/network/acquirepriv.go Driver.escalate, Driver.deescalate *)\nDefinition escalate_code : list dstmt :=\n  %s.\nDefinition deescalate_code : list dstmt :=\n  %s.\n",
 			decisionFunc("driver/network/acquirepriv.go", "Driver.escalate"), decisionFunc("driver/network/acquirepriv.go", "Driver.deescalate"))
+		fmt.Fprintf(&sw, "(* channel/auth.go Channel.authenticateSSH, Channel.authenticateTelnet *)\nDefinition auth_ssh_code : list dstmt :=\n  %s.\nDefinition auth_telnet_code : list dstmt :=\n  %s.\n",
+			decisionFunc("channel/auth.go", "Channel.authenticateSSH"), decisionFunc("channel/auth.go", "Channel.authenticateTelnet"))
 		// the loops that apply an option list to an object (C19)
 		var ol []string
 		for _, lf := range [][2]string{{"driver/generic/driver.go", "NewDriver"}, {"driver/network/driver.go", "NewDriver"}, {"driver/netconf/driver.go", "NewDriver"},
